@@ -632,6 +632,34 @@ class Interp:
                        ('@__cxa_throw', 'throw'), ('@__cxa_allocate_exception', 'throw'), ('@_ZSt20__throw_system_errori', 'throw system_error'),
                        ('@__stack_chk_fail', 'stack check fail'), ('@exit', 'exit')):
             E[n] = noreturn(msg)
+        def ctype(pred_c, pred_z):
+            def f(st, args):
+                c = args[0]
+                if isc(c): return 1 if pred_c(sgn(c, 32)) else 0
+                return 1 if s.fork_bool(st, pred_z(c)) else 0
+            return f
+        def rng(c, lo, hi): return z3.And(z3.UGE(c, z3.BitVecVal(lo, 32)), z3.ULE(c, z3.BitVecVal(hi, 32)))
+        E['@isspace'] = ctype(lambda c: c == 32 or 9 <= c <= 13, lambda c: z3.Or(c == 32, rng(c, 9, 13)))
+        E['@isdigit'] = ctype(lambda c: 48 <= c <= 57, lambda c: rng(c, 48, 57))
+        E['@isupper'] = ctype(lambda c: 65 <= c <= 90, lambda c: rng(c, 65, 90))
+        E['@islower'] = ctype(lambda c: 97 <= c <= 122, lambda c: rng(c, 97, 122))
+        E['@isalpha'] = ctype(lambda c: 65 <= c <= 90 or 97 <= c <= 122, lambda c: z3.Or(rng(c, 65, 90), rng(c, 97, 122)))
+        E['@isalnum'] = ctype(lambda c: 48 <= c <= 57 or 65 <= c <= 90 or 97 <= c <= 122, lambda c: z3.Or(rng(c, 48, 57), rng(c, 65, 90), rng(c, 97, 122)))
+        E['@isxdigit'] = ctype(lambda c: 48 <= c <= 57 or 65 <= c <= 70 or 97 <= c <= 102, lambda c: z3.Or(rng(c, 48, 57), rng(c, 65, 70), rng(c, 97, 102)))
+        E['@isprint'] = ctype(lambda c: 32 <= c <= 126, lambda c: rng(c, 32, 126))
+        E['@isgraph'] = ctype(lambda c: 33 <= c <= 126, lambda c: rng(c, 33, 126))
+        E['@iscntrl'] = ctype(lambda c: 0 <= c <= 31 or c == 127, lambda c: z3.Or(rng(c, 0, 31), c == 127))
+        E['@isblank'] = ctype(lambda c: c == 32 or c == 9, lambda c: z3.Or(c == 32, c == 9))
+        E['@ispunct'] = ctype(lambda c: 33 <= c <= 47 or 58 <= c <= 64 or 91 <= c <= 96 or 123 <= c <= 126, lambda c: z3.Or(rng(c, 33, 47), rng(c, 58, 64), rng(c, 91, 96), rng(c, 123, 126)))
+        def tolower(st, args):
+            c = args[0]
+            if isc(c): return c + 32 if 65 <= c <= 90 else c
+            return z3.If(rng(c, 65, 90), c + 32, c)
+        def toupper(st, args):
+            c = args[0]
+            if isc(c): return c - 32 if 97 <= c <= 122 else c
+            return z3.If(rng(c, 97, 122), c - 32, c)
+        E['@tolower'] = tolower; E['@toupper'] = toupper
         E['@__cxa_atexit'] = lambda st, a: 0
         E['@__cxa_guard_acquire'] = lambda st, a: s.guard_acquire(st, a)
         E['@__cxa_guard_release'] = lambda st, a: s.store(st, a[0], 1, 1)
@@ -1169,6 +1197,13 @@ class Interp:
             pred = {'umax': 'ugt', 'umin': 'ult', 'smax': 'sgt', 'smin': 'slt'}[o]
             c = s.icmp(pred, rw, a, b)
             fr.regs[dst] = (a if c else b) if type(c) is int else z3.If(c, s.z(a, rw), s.z(b, rw))
+        elif n.startswith(('usub.sat.', 'uadd.sat.')):
+            a, b = A; w = rw
+            if type(a) is int and type(b) is int:
+                fr.regs[dst] = max(a - b, 0) if n.startswith('usub') else min(a + b, (1 << w) - 1)
+            else:
+                a, b = s.z(a, w), s.z(b, w)
+                fr.regs[dst] = z3.If(z3.ULT(a, b), z3.BitVecVal(0, w), a - b) if n.startswith('usub') else z3.If(z3.ULT(a + b, a), z3.BitVecVal((1 << w) - 1, w), a + b)
         elif n.startswith('abs.'):
             a = A[0]
             if type(a) is int: fr.regs[dst] = mask(abs(sgn(a, rw)), rw)
